@@ -59,9 +59,13 @@ class AbsMatch(Native):
         if name == "group":
             return NativeMethod(lambda it, a, kw: self.value_of(*a) if len(a) <= 1 else tuple(self.value_of(x) for x in a))
         if name == "groups":
-            return NativeMethod(lambda it, a, kw: tuple(self.value_of(i + 1) for i in range(len(self.grps))))
+            dflt = lambda a, kw: a[0] if a else kw.get("default")
+            fill = lambda v, d: d if v is None else v
+            return NativeMethod(lambda it, a, kw: tuple(fill(self.value_of(i + 1), dflt(a, kw)) for i in range(len(self.grps))))
         if name == "groupdict":
-            return NativeMethod(lambda it, a, kw: {g[0]: self.value_of(i + 1) for i, g in enumerate(self.grps) if g[0]})
+            dflt = lambda a, kw: a[0] if a else kw.get("default")
+            fill = lambda v, d: d if v is None else v
+            return NativeMethod(lambda it, a, kw: {g[0]: fill(self.value_of(i + 1), dflt(a, kw)) for i, g in enumerate(self.grps) if g[0]})
         if name == "span":
             return NativeMethod(lambda it, a, kw: self.span_of(*a))
         if name == "start":
